@@ -3,12 +3,15 @@ import itertools
 from props.proc_common import *  # noqa
 
 ID = "C14"; MODEL = "proc"; IMPL = "proc"
-COQ_PROP = "Properties/C14.v"; COQ_DIRS = ["Common", "Proc"]
+COQ_PROP = "Properties/C14.v"; COQ_DIRS = ["Common", "CQueue", "Proc"]
 COQ_MODULE = "Proc.Model"; RUN_FN = "run"
 THEOREMS = ["C14_bracket_shape", "C14_start_once_in_order", "C14_incoming_until_consumed",
             "C14_handler_iff_not_consumed", "C14_end_once_reverse_after_handler",
             "C14_caught_panic_bracket_closed", "C14_brackets_do_not_interleave", "C14_emitted_in_program_order",
-            "C14_sends_keep_order", "C14_loop_states_reachable", "C14_run_terminates"]
+            "C14_sends_keep_order", "C14_loop_states_reachable", "C14_run_terminates",
+            "C14_run_script_over_cqueue", "C14_run_over_cqueue_eq_run_over_spec", "C14_run_over_cqueue_spec",
+            "C14_brackets_do_not_interleave_cq", "C14_emitted_in_program_order_cq", "C14_sends_keep_order_cq",
+            "C14_loop_states_reachable_cq"]
 QUICK_N = 2500; THOROUGH_N = 150000
 RULE = ("scripts = (send budget, global default stack, two modules each with Module::stack mode keep/append/replace/prepend, own elements, "
         "handler script with 0..3 start-up stages and optionally a sleeping task or a shutdown/restart trigger, message injections onto a "
@@ -20,7 +23,10 @@ RULE = ("scripts = (send budget, global default stack, two modules each with Mod
 TRUSTED = ["user code (elements, handler, task) is a script language: pass / modify(+k) / consume, sends from every hook under a shared budget, "
            "one sleeping task per module, or one shutdown trigger, or one callback (handle_message / at_sim_start / at_sim_end) that panics under a "
            "catching stereotype (never two of them: timer slots across a runtime shutdown and task polls after a panic are C05/C09/C13)",
-           "the event set is the two-list specification that C01 proves the calendar queue refines (current-instant FIFO first, then time order, FIFO among ties)",
+           "the extracted runner threads the two-list event-set specification; C14_run_over_cqueue_eq_run_over_spec proves (through C01's refinement "
+           "relation R_add / R_fetch / R_new_at) that the same event loop over the concrete calendar queue, for every n, t >= 1, prints exactly the same, "
+           "and the ordering clauses are restated for the calendar queue itself (_cq theorems); the queue carries an index into an event store "
+           "where the real queue carries the boxed event",
            "UNCAUGHT panics and panicking elements are outside C14 (events.rs returns before incoming_downstream when the handler panics and the stereotype does not catch: C13)",
            "tokio is modelled as: a task woken by activate() runs once inside the next Harness::exec of its module, after the callback"]
 ASSUMPTIONS = ["numbers in scripts stay far below 2^62 (payload additions do not wrap, times fit SimTime)"]
@@ -33,7 +39,9 @@ CLAIM = dict(
          "no element consumes; event_end runs exactly once per element in reverse order after everything else, also when the callback panics and "
          "the stereotype catches it (the module is deactivated, the bracket is still closed); the whole log is a concatenation "
          "of such single-module brackets (no interleaving); the events a bracket adds to the event set are exactly its send calls in log order, "
-         "and two sends of one event with arrival times t1 <= t2 are dispatched in that order; every run terminates within the stated fuel. "
+         "and two sends of one event with arrival times t1 <= t2 are dispatched in that order; every run terminates within the stated fuel; "
+         "the same event loop over the concrete calendar queue (any n, t >= 1) prints the same log (composition with C01), so the bracket and "
+         "ordering clauses hold for the run over the calendar queue as well. "
          "The model is tied to des by differential runs of scripted ProcessingElements/Modules on the real runtime (global stack via set_stack, "
          "per-module via Module::stack, add_message_onto/handle_message_on, start-up stages, tokio sleep wake-ups, shutdown/restart, caught "
          "handler panics, bursts of up to 190 sends per event, sim end) "
@@ -43,7 +51,8 @@ CLAIM = dict(
          "module). Uncaught panics and panicking elements are out of scope (the code skips incoming_downstream after an uncaught handler panic; see C13). "
          "After a caught panic the module is inactive: its undelayed sends to the peer from event_end are dropped at its own gate. Module::reset runs "
          "outside any bracket. A message for a shut-down module produces no bracket at all (C09).",
-    technique="Coq proof by induction over the stack (closed-form bracket shape), invariants over the event loop, termination measure; differential correspondence check",
+    technique="Coq proof by induction over the stack (closed-form bracket shape), invariants over the event loop, termination measure, forward "
+              "simulation calendar queue / specification composed from C01's one-step lemmas; differential correspondence check",
     design="6/C14")
 
 DELAYS = [0, 0, 0, 1, 2, 5, 5, 1000, 2500000, 5000000]
